@@ -188,6 +188,11 @@ _UNARY = ["sqrt", "abs", "absolute", "exp", "log", "sin", "cos", "tan", "round",
 
 def _unary(interp, name, args, kw, st, node):
     x = arrv(args[0])
+    src = merged_leading(interp, x) if (len(args) == 1 and not kw) else None
+    if src is not None:
+        # elementwise maps commute with merging the leading axes
+        inner = _unary(interp, name, [src], {}, st, node)
+        return reshape_to(interp, inner, [A.int_of_dim(d) for d in x.shape], st, node)
     base = name.rsplit(".", 1)[1]
     base = {"absolute": "abs", "around": "round", "fabs": "abs", "rint": "round"}.get(base, base)
     if x.has_const and isinstance(x.const, (int, float)) and base == "sqrt" and x.const >= 0:
@@ -298,6 +303,13 @@ def _reduction(opname, dtype=None, index=False):
         x = arrv(b["a"])
         sh = shape(x)
         rank = len(sh) if sh is not None else None
+        src = merged_leading(interp, x)
+        if src is not None and rank is not None and rank >= 2 and axis_of(b.get("axis"), rank) == rank - 1 and not any(k in kw for k in ("keepdims", "weights", "out", "dtype")):
+            # a reduction along the last axis commutes with merging the leading axes
+            inner = f(interp, name, [src], {"axis": vconst(len(shape(src)) - 1)}, st, node)
+            if inner.kind == "arr" and inner.shape is not None:
+                interp.vtab.setdefault(inner.term, inner)
+                return reshape_to(interp, inner, [A.int_of_dim(d) for d in sh[:-1]], st, node)
         rsh = reduce_shape(interp, sh, b.get("axis"), b.get("keepdims"), st, node)
         parts = [x.term]
         at = axis_term(b.get("axis"), rank)
@@ -401,6 +413,16 @@ def np_norm(interp, name, args, kw, st, node):
     x = arrv(b["x"])
     sh = shape(x)
     rank = len(sh) if sh is not None else None
+    src = merged_leading(interp, x)
+    if src is not None and rank is not None and rank >= 2 and axis_of(b.get("axis"), rank) == rank - 1 and (b.get("keepdims") is None or b["keepdims"].kind == "none"):
+        # a norm along the last axis commutes with merging the leading axes
+        kw2 = {"axis": vconst(len(shape(src)) - 1)}
+        if b.get("ord") is not None and b["ord"].kind != "none":
+            kw2["ord"] = b["ord"]
+        inner = np_norm(interp, name, [src], kw2, st, node)
+        if inner.kind == "arr" and inner.shape is not None:
+            interp.vtab.setdefault(inner.term, inner)
+            return reshape_to(interp, inner, [A.int_of_dim(d) for d in sh[:-1]], st, node)
     rsh = reduce_shape(interp, sh, b.get("axis"), b.get("keepdims"), st, node)
     parts = [x.term]
     at = axis_term(b.get("axis"), rank)
@@ -506,6 +528,19 @@ def np_searchsorted(interp, name, args, kw, st, node):
 # -- shape manipulation ---------------------------------------------------------------
 
 
+def merged_leading(interp, v):
+    """A (shape (p, q, *rest)) if v is reshape(A) merging exactly the two leading axes"""
+    if v.kind != "arr" or v.term.op != "reshape" or not v.term.args or v.shape is None:
+        return None
+    src = interp.vtab.get(v.term.args[0])
+    ssh = shape(src) if src is not None else None
+    if ssh is None or len(ssh) != len(v.shape) + 1 or len(ssh) < 2:
+        return None
+    if tuple(ssh[2:]) != tuple(v.shape[1:]) or ssh[0].mul(ssh[1]) != v.shape[0]:
+        return None
+    return A.as_arr(src)
+
+
 def reshape_to(interp, x, dims_v, st, node):
     sh = shape(x)
     dims = []
@@ -540,6 +575,13 @@ def reshape_to(interp, x, dims_v, st, node):
     dims = tuple(dims)
     if sh is not None and sh == dims:
         return x
+    inner = merged_leading(interp, x)
+    if x.term.op == "reshape" and x.term.args:
+        src = interp.vtab.get(x.term.args[0])
+        if src is not None and shape(src) is not None and tuple(shape(src)) == dims:
+            return src  # reshape back to the shape it came from
+    if sh is not None:
+        interp.vtab.setdefault(x.term, x)
     # total size check when everything is known
     if sh is not None and minus is None and all(d.known() for d in dims) and all(d.known() for d in sh):
         a = Dim(1)
@@ -742,6 +784,10 @@ def _stack(interp, name, args, kw, st, node):
     # symbolic sequence (comprehension or list of unknown length)
     sh = A.shape_of(seq)
     nsh = None
+    if isinstance(seq.extra, tuple) and len(seq.extra) == 4 and seq.extra[3] == "arr" and sh is not None and len(sh) == 3 and base in ("concatenate", "vstack") and ax == 0 and all(d.known() for d in sh):
+        # the blocks of a 3-D array joined along axis 0: its two leading axes merged
+        arr3 = interp.vtab.get(seq.term) or V("arr", seq.term, shape=tuple(sh), orig=frozenset([FRESH]), labels=labels, loc=fresh_id())
+        return reshape_to(interp, arr3, [A.int_of_dim(sh[0].mul(sh[1])), A.int_of_dim(sh[2])], st, node)
     if sh is not None and len(sh) >= 2:
         # [ (r, c) blocks ] stacked along axis 0 : rows = n*r
         if base in ("concatenate", "vstack") and ax == 0:
